@@ -255,6 +255,9 @@ type Script struct {
 	// connection (NoReturnConn); bodies toward such a receiver fit the window it announced, often
 	// exactly, so the sender-side window of the relay sits at 0 while zero-size frames (trailers,
 	// END_STREAM, RST_STREAM, new HEADERS) still have to pass
+	// an endpoint that starts with a large SETTINGS_MAX_FRAME_SIZE and lowers it to the minimum
+	// later, while frames sized for the old limit wait in the relay for credit
+	ClientInitFrame, ServerInitFrame       uint32
 	ClientNoReturn, ServerNoReturn         bool
 	ClientNoReturnConn, ServerNoReturnConn bool
 	Features                               map[string]bool
@@ -400,6 +403,19 @@ func GenScript(r *lib.RNG, o Options) *Script {
 		return out
 	}
 	s.ClientChanges, s.ServerChanges = gen(), gen()
+	if o.FrameSizeChanges {
+		shrink := []http2.Setting{{ID: http2.SettingMaxFrameSize, Val: 16384}}
+		if r.Chance(1, 8) {
+			s.ClientInitFrame = uint32(lib.Pick(r, []int{20000, 65536}))
+			s.ClientChanges = append(s.ClientChanges, shrink)
+			s.Features["frame-size-shrinks"] = true
+		}
+		if r.Chance(1, 8) {
+			s.ServerInitFrame = uint32(lib.Pick(r, []int{20000, 65536}))
+			s.ServerChanges = append(s.ServerChanges, shrink)
+			s.Features["frame-size-shrinks"] = true
+		}
+	}
 	// tiny windows: keep bodies small enough to finish (each window's worth costs a round trip)
 	minWin := uint32(65535)
 	for _, w := range []uint32{s.ClientWin, s.SrvWin} {
@@ -795,8 +811,16 @@ func (rg *Rig) Run(sc *Script, r *lib.RNG, hb *lib.Heartbeat) Result {
 	go ce.grantLoop(stopGrants)
 	go se.grantLoop(stopGrants)
 	// initial SETTINGS
-	noteErr("client settings", ce.sendSettings([]http2.Setting{{ID: http2.SettingInitialWindowSize, Val: sc.ClientWin}}, deadline))
-	noteErr("server settings", se.sendSettings([]http2.Setting{{ID: http2.SettingInitialWindowSize, Val: sc.SrvWin}}, deadline))
+	cinit := []http2.Setting{{ID: http2.SettingInitialWindowSize, Val: sc.ClientWin}}
+	if sc.ClientInitFrame > 0 {
+		cinit = append(cinit, http2.Setting{ID: http2.SettingMaxFrameSize, Val: sc.ClientInitFrame})
+	}
+	sinit := []http2.Setting{{ID: http2.SettingInitialWindowSize, Val: sc.SrvWin}}
+	if sc.ServerInitFrame > 0 {
+		sinit = append(sinit, http2.Setting{ID: http2.SettingMaxFrameSize, Val: sc.ServerInitFrame})
+	}
+	noteErr("client settings", ce.sendSettings(cinit, deadline))
+	noteErr("server settings", se.sendSettings(sinit, deadline))
 	t0 := time.Now()
 	var cliWG sync.WaitGroup
 	for _, st := range sc.Streams {
